@@ -217,6 +217,18 @@ def check(run: Run) -> None:
                   for n in l.body.walk() if isinstance(n, C.Binary) and n.op == "=") for l in init)
         if not oki:
             run.finding("C03.e", "with_passive_inputs:default-active", "without an explicit list the starting active set must be every input slot", loc=NODE)
+        # ... and WITH an explicit list (inputs the node type itself declares passive / structural) the starting set is that list:
+        # a passive() marker on one input must not re-activate another input the node declared passive
+        ex = [s0 for s0 in fa.body.walk() if isinstance(s0, C.If) and cn(s0.cond).replace(" ", "") == "schema.active_inputs.has_value()"]
+        run.count(1, "C03.e.explicit-active")
+        ok_ex = False
+        for s0 in ex:
+            asg = [n for n in s0.then.walk() if isinstance(n, C.Binary) and n.op == "=" and cn(n.l) == "active" and cn(n.r) in ("*schema.active_inputs", "schema.active_inputs.value()")]
+            in_else = s0.els is not None and any(R._contains(s0.els, l) for l in init)
+            ok_ex = ok_ex or (bool(asg) and in_else)
+        if not ok_ex:
+            run.finding("C03.e", "with_passive_inputs:explicit-active-ignored", "the starting active set must be the node type's own active_inputs when it "
+                        "declares one (all slots only otherwise): a passive() marker would re-activate inputs the node declared passive", loc=NODE)
 
     with run.obligation("C03.e2", "K9", "the runtime type canonicalisation compares active_inputs and structural_inputs, so the passive "
                         "variant is never merged with the active one"):
@@ -253,8 +265,22 @@ def check(run: Run) -> None:
         fl = R.flow(run, fa)
         R.k2_precede(run, "C03.f", fl, R.store_is(ST, r"true", region=""), R.call_is(name="schedule_node"), "started:=true before the self-schedule")
 
+    with run.obligation("C03.g", "K1", "a node is also run by its own scheduled wake-up: a request for an earlier time always lowers the graph's next "
+                        "cycle (shared with C02.a), so the cycle in which the node must run is actually visited"):
+        sub = Run("C03", run.tier, run.tree, quiet=True)
+        c02.check(sub)
+        run.evaluations += sub.evaluations
+        run.count(1, "C03.g")
+        for f in sub.findings:
+            if f.rule == "C02.a":
+                run.finding("C03.g", f.key, f.message, f.loc)
+        for e in sub.errors:
+            if e.startswith("C02.a:"):
+                raise AnalysisError("model-mismatch", e)
+
 
 VARIANTS = [
+    {"id": "e-passive-marker-ignores-declared-active-list", "expect": "C03.e", "edits": [{"file": NODE, "find": "        std::vector<std::size_t> active;\n        if (schema.active_inputs.has_value()) { active = *schema.active_inputs; }\n        else\n        {\n            active.resize(input_count);\n            for (std::size_t slot = 0; slot < input_count; ++slot) { active[slot] = slot; }\n        }", "replace": "        std::vector<std::size_t> active(input_count);\n        for (std::size_t slot = 0; slot < input_count; ++slot) { active[slot] = slot; }"}]},
     {"id": "a-activate-all", "expect": "C03.a", "edits": [{"file": NODE, "find": "            for (const std::size_t slot : *slots)\n            {\n                if (slot >= schema->field_count()) { throw std::out_of_range(\"Node active input selector is out of range\"); }\n                bundle[slot].make_active();", "replace": "            for (std::size_t slot = 0; slot < schema->field_count(); ++slot)\n            {\n                bundle[slot].make_active();"}]},
     {"id": "a-stop-skips-structural", "expect": "C03.a", "edits": [{"file": NODE, "find": "                bundle[slot].make_passive();\n            }\n        }\n\n        [[nodiscard]] bool ready_to_evaluate", "replace": "                static_cast<void>(slot);\n            }\n        }\n\n        [[nodiscard]] bool ready_to_evaluate"}]},
     {"id": "b-min-instead-of-max", "expect": "C03.b", "edits": [{"file": NODE, "find": "modified_time != MIN_DT ? std::max(modified_time, graph->view().evaluation_time())", "replace": "modified_time != MIN_DT ? std::min(modified_time, graph->view().evaluation_time())"}]},
